@@ -343,7 +343,9 @@ def run(tier: str) -> int:
                       "mutable_model_states": rm.distinct})
     rep.sample({"tree": trees[0], "is_aggregate": events[0]["obs"]})
     rep.rule = ("behaviours outside the property list: is_aggregate of every tree of MC_Meta (depth <= 2 over leaves of every vote) vs PT_Meta!IsAgg; "
-                "Criterion.all / any over every sequence of <= 4 parts from {EmptyCriterion, c1, c2, c3} vs FoldCrit; immutable=False: MC_Mutable on the "
+                "Criterion.all / any over every sequence of <= 4 parts from {EmptyCriterion, c1, c2, c3} vs FoldCrit; "
+                "window frames (every window shape x 180 frames x rows / range, second frames) vs WindowCall; GROUP BY modifiers (every history of MC_Group on three builders) vs GroupOutcome; "
+                "tables named by a path (seven routes x name sequences x alias x six builders) vs TablePath; immutable=False: MC_Mutable on the "
                 "measured sharing tables (SameContent, OneObject) and two-call chains of the catalogue on real builders in both modes")
     rep.exhaustive = True
     return rep.finish()
